@@ -4,6 +4,7 @@ import collections, json, subprocess, sys, os, re
 prop, n = sys.argv[1], int(sys.argv[2]) if len(sys.argv) > 2 else 100
 seed = int(os.environ.get("VERIF_SEED", "0"))
 W = 6
+os.makedirs("/var/tmp/hv", exist_ok=True)
 procs = []
 for i in range(W):
     out = f"/var/tmp/hv/viols_{prop}_{i}.json"
